@@ -106,12 +106,16 @@ def r2(ctx):
                    {"path": path_text(o)})
 
 
-def run_forever_paths(ctx, reconnect=0, prior_errored=False, scenario_filter=None, close_in=None, interrupt_in=None, close_during_sleep=False):
+def run_forever_paths(ctx, reconnect=0, prior_errored=False, scenario_filter=None, close_in=None, interrupt_in=None, close_during_sleep=False, module_reconnect=None, stale_fields=None, call_kwargs=None):
     """Whole run_forever with the built-in dispatcher; the dispatcher's read loop is a stub that plays one scenario."""
     idx = ctx.index
 
     def ws_ctor(I, run, args, kwargs, node):
         run.effect("WebSocket()", args, kwargs, node=node)
+        if stale_fields:
+            # what the per-run fields hold at the moment the first connection of this run is built
+            app = next(c for a, c in run.heap.items() if getattr(c, "label", "") == "app")
+            run.effect("app-fields-at-construct", tuple(app.fields.get(k, NONE) for k in sorted(stale_fields)), node=node)
         return new_obj(run, None, "appsock", sock=Sym("rawsock", "obj"), connected=TRUE)
 
     def connect(I, run, args, kwargs, node):
@@ -180,9 +184,11 @@ def run_forever_paths(ctx, reconnect=0, prior_errored=False, scenario_filter=Non
     I = Interp(idx, Config(stubs=st, loop_unroll=2))
 
     def body(run):
-        app = mk_app(I, run, has_errored=C(prior_errored))
+        app = mk_app(I, run, has_errored=C(prior_errored), **(stale_fields or {}))
         del run.effects[:]
-        return I.call(run, I.getattr(run, app, "run_forever", None), [], {"reconnect": C(reconnect)}, None)
+        if module_reconnect is not None:
+            I.module_env(run, "_app").vars["RECONNECT"] = module_reconnect
+        return I.call(run, I.getattr(run, app, "run_forever", None), [], dict({"reconnect": C(reconnect)}, **(call_kwargs or {})), None)
 
     return I, ctx.count_paths(I.explore(body))
 
@@ -408,10 +414,18 @@ def r5(ctx):
            "history: first run ends with an error (has_errored=True); second, clean run on the same object returns True: the error flag is not reset in the prologue",
            loc, {"path": path_text(bad, 8)} if bad else None)
     # other per-run fields are assigned before setSock
-    fn = ctx.index.func(RF).node
-    assigned = {text(t) for st in fn.body if isinstance(st, ast.Assign) for t in st.targets}
-    need = {"self.has_done_teardown", "self.keep_running", "self.ping_interval", "self.ping_timeout", "self.ping_payload"}
-    ctx.ob(f"{RF}:prologue-resets", need <= assigned, f"prologue assigns {sorted(assigned & need)}" if need <= assigned else f"prologue misses {sorted(need - assigned)}", loc)
+    # (semantic: an app object left over from an earlier run -- torn down, not running, old ping settings -- is started again with
+    # new ping arguments; when the first connection of the new run is built, every per-run field holds this run's value)
+    stale = {"has_done_teardown": TRUE, "keep_running": FALSE, "ping_interval": C(99), "ping_timeout": C(98), "ping_payload": C("stale")}
+    fresh = {"has_done_teardown": FALSE, "keep_running": TRUE, "ping_interval": C(20), "ping_timeout": C(5), "ping_payload": C("fresh")}
+    I3, outs3 = run_forever_paths(ctx, reconnect=0, stale_fields=stale,
+                                  call_kwargs={"ping_interval": C(20), "ping_timeout": C(5), "ping_payload": C("fresh")})
+    snaps = [e for o in outs3 for e in o.effects if e.name == "app-fields-at-construct"]
+    if not snaps:
+        raise AnalysisError("no run of run_forever reaches the construction of its connection")
+    missing = sorted({f"self.{k}" for e in snaps for k, v in zip(sorted(stale), e.args) if v != fresh[k]})
+    ctx.ob(f"{RF}:prologue-resets", not missing, f"{len(snaps)} runs: every per-run field {sorted(fresh)} holds this run's value when the connection is built" if not missing else
+           f"prologue misses {missing}: a second run on the same object starts with the previous run's value", loc)
 
 
 @rule("R-C14-6", min_instances=3, title="resources: the ping thread is signalled and joined; a second run is refused while a socket exists and allowed after teardown")
